@@ -200,7 +200,7 @@ func (a *c22Asset) xfer(snd basics.Address, amt uint64, asnd, rcv, closeTo basic
 			return p
 		}
 		if a.H[source].Amt != 0 {
-			return c22OtherP("close-to-self")
+			return c22RuleP("close-self-nonzero") // the code refuses: "asset ... not zero (N) after closing"
 		}
 		delete(a.H, source)
 		info["closed"] = true
@@ -378,7 +378,8 @@ type c22World struct {
 	maxAsset int
 	// history so far (drives the adaptive weights)
 	frozeSeen, frozenXfer, clawMoved, destroyTried bool
-	progress                                       int // percent of the planned history already generated
+	progress                                       int  // percent of the planned history already generated
+	sumOnly                                        bool // the model lost track (abandoned case): only conservation is read back
 }
 
 func (w *c22World) appIdx() int      { return w.n }
@@ -613,6 +614,9 @@ func (w *c22World) drawOp(t *rapid.T, forceCreate bool) c22Op {
 			op.App = true
 			op.S = w.pick(t, "caller", nil, 0, true)
 			op.X = w.pick(t, "rcv", holdersAny, 65, false)
+			if c22R(t, "selfXfer", 0, 11) == 0 {
+				op.X = w.appIdx() // sender == receiver
+			}
 			op.Amt = c22DrawAmount(t, balOf(w.appIdx()), a.P.Total)
 		} else {
 			op.S = w.pick(t, "snd", holdersPos, 75, true)
@@ -625,6 +629,9 @@ func (w *c22World) drawOp(t *rapid.T, forceCreate bool) c22Op {
 				}
 			}
 			op.X = w.pick(t, "rcv", holdersAny, 65, false)
+			if c22R(t, "selfXfer", 0, 11) == 0 && !op.App {
+				op.X = op.S // sender == receiver
+			}
 			if len(frozenHolders) > 0 && !op.App {
 				steer := c22R(t, "steerFrozen", 0, 9)
 				if !w.frozenXfer && steer >= 5 {
@@ -692,17 +699,19 @@ func (w *c22World) drawOp(t *rapid.T, forceCreate bool) c22Op {
 			op.S = s
 		}
 		cr := w.idxOf(a.Creator)
-		switch c22R(t, "closeToKind", 0, 9) {
+		src := op.S
+		if op.App {
+			src = w.appIdx()
+		}
+		switch c22R(t, "closeToKind", 0, 12) {
 		case 0, 1, 2, 3:
 			op.Y = cr
 		case 4, 5, 6, 7:
 			op.Y = w.pick(t, "closeTo", holdersAny, 90, false)
+		case 8, 9, 10:
+			op.Y = src // close-out to SELF: must be refused unless the holding is empty
 		default:
 			op.Y = w.pick(t, "closeTo", nil, 0, false)
-		}
-		src := op.S
-		if op.App {
-			src = w.appIdx()
 		}
 		if c22R(t, "closeAmt0", 0, 9) < 7 {
 			op.Amt = 0
@@ -710,6 +719,9 @@ func (w *c22World) drawOp(t *rapid.T, forceCreate bool) c22Op {
 		} else {
 			op.Amt = c22DrawAmount(t, balOf(src), a.P.Total)
 			op.X = w.pick(t, "rcv", holdersAny, 70, false)
+		}
+		if c22R(t, "closeRcvSelf", 0, 9) < 2 {
+			op.X = src // sender == receiver (== closeTo when the self kind was drawn)
 		}
 	case "config":
 		mg := w.idxOf(a.P.Manager)
@@ -854,11 +866,11 @@ func (w *c22World) checkLedger(t *rapid.T, tt *testing.T, l *Ledger, vk *vkCtx, 
 		if err != nil {
 			tt.Fatalf("GetCreator: %v", err)
 		}
-		if exists != a.Alive {
+		if !w.sumOnly && exists != a.Alive {
 			t.Fatalf("%s: asset %d exists=%v in the ledger but the rules say alive=%v", when, a.ID, exists, a.Alive)
 		}
 		if exists {
-			if creator != a.Creator {
+			if !w.sumOnly && creator != a.Creator {
 				t.Fatalf("%s: asset %d creator changed", when, a.ID)
 			}
 			params, ok := ads[creator].AssetParams[a.ID]
@@ -876,12 +888,18 @@ func (w *c22World) checkLedger(t *rapid.T, tt *testing.T, l *Ledger, vk *vkCtx, 
 				t.Fatalf("%s: asset %d: sum of holdings %s != Params.Total %d", when, a.ID, sum, params.Total)
 			}
 			vk.Add("conservation_checks", 1)
+			if w.sumOnly {
+				continue
+			}
 			if params.Total != a.P.Total || params.DefaultFrozen != a.P.DefaultFrozen {
 				t.Fatalf("%s: asset %d immutable params changed: total %d (created with %d)", when, a.ID, params.Total, a.P.Total)
 			}
 			if params.Manager != a.P.Manager || params.Reserve != a.P.Reserve || params.Freeze != a.P.Freeze || params.Clawback != a.P.Clawback {
 				t.Fatalf("%s: asset %d role addresses differ from the reference model", when, a.ID)
 			}
+		}
+		if w.sumOnly {
+			continue
 		}
 		// --- reference model agrees with the ledger, holding by holding (incl. default-frozen on opt-in)
 		for i, ad := range w.all {
@@ -1080,10 +1098,11 @@ func TestVerif_C22_History(t *testing.T) {
 			}
 			endBlock(tt, l, eval)
 			l.trackers.waitAccountsWriting()
+			w.sumOnly = abandoned
+			w.checkLedger(t, tt, l, vk, fmt.Sprintf("after block %d", b+1))
 			if abandoned {
 				break
 			}
-			w.checkLedger(t, tt, l, vk, fmt.Sprintf("after block %d", b+1))
 		}
 		if !abandoned && c22R(t, "flush", 0, 3) == 0 {
 			// push everything into the database and read it all back through the committed path
